@@ -10,6 +10,9 @@ PROP = {
         {"name": "services", "pkg": "internal/dnsforward",
          "files": ["dnsforward/common_world_test.go", "dnsforward/c01_test.go", "dnsforward/c18_services_test.go"],
          "tests": [("TestVFC18ServicesPause", (400, 1500))], "shards": (2, 16)},
+        # the schedule of a persistent client across the configuration file and a restart
+        {"name": "home_clients", "pkg": "internal/home", "files": ["home/c18_clients_test.go"],
+         "tests": [("TestVFC18ClientScheduleRestart", (300, 1500))], "shards": (2, 8)},
     ],
     "level": "exploration",
     "technique": "property-based testing (rapid) against a wall-clock reference model; round-trip and validity oracles",
